@@ -217,18 +217,19 @@ type Config struct {
 }
 
 type Cluster struct {
-	Env    *Env
-	Rng    *rand.Rand
-	Cfg    Config
-	KS     *testingutils.TestKeySet
-	F      int
-	ID     []byte
-	Nodes  []*Node // index = operator id - 1
-	Pool   []*Flight
-	Seen   []*specqbft.SignedMessage // everything ever broadcast (what a Byzantine operator knows)
-	Values [][]byte
-	Steps  int
-	Acts   []string // action log (compact) for replay/witness
+	Refusals []string // proposals of correct round leaders that a correct, undecided operator without an accepted proposal refused
+	Env      *Env
+	Rng      *rand.Rand
+	Cfg      Config
+	KS       *testingutils.TestKeySet
+	F        int
+	ID       []byte
+	Nodes    []*Node // index = operator id - 1
+	Pool     []*Flight
+	Seen     []*specqbft.SignedMessage // everything ever broadcast (what a Byzantine operator knows)
+	Values   [][]byte
+	Steps    int
+	Acts     []string // action log (compact) for replay/witness
 	// counters
 	Delivered, Dropped, Duplicated, Timeouts, ByzMsgs, ByzAccepted, Compactions int
 	// hooks (monitors)
@@ -379,7 +380,19 @@ func (c *Cluster) Deliver(n *Node, m *specqbft.SignedMessage, byz bool) error {
 	if err := cp.Decode(enc); err != nil {
 		return err
 	}
+	// a correct round leader's proposal is always justified: an undecided correct operator in that round or below, without an
+	// accepted proposal for it, has no reason to turn it down
+	watch := false
+	if !byz && !n.Byz && cp.Message.MsgType == specqbft.ProposalMsgType && len(cp.Signers) == 1 && cp.Message.Height == c.Cfg.Height &&
+		int(cp.Signers[0]) >= 1 && int(cp.Signers[0]) <= len(c.Nodes) && !c.Nodes[cp.Signers[0]-1].Byz && cp.Signers[0] == Leader(c.Cfg.N, c.Cfg.Height, cp.Message.Round) {
+		if st := n.Inst(); st != nil && !st.Decided && st.Round <= cp.Message.Round && !(st.ProposalAcceptedForCurrentRound != nil && st.Round == cp.Message.Round) {
+			watch = n.Refuses == nil || !bytes.Equal(cp.FullData, n.Refuses)
+		}
+	}
 	dec, err := n.Ctrl.ProcessMsg(c.Env.Logger, cp)
+	if watch && err != nil {
+		c.Refusals = append(c.Refusals, fmt.Sprintf("n%d refused %s: %v", n.ID, Desc(cp), err))
+	}
 	if c.Cfg.RunnerCompaction {
 		if inst := n.Ctrl.StoredInstances.FindInstance(cp.Message.Height); inst != nil {
 			if cp.Message.MsgType == specqbft.RoundChangeMsgType || (cp.Message.MsgType == specqbft.CommitMsgType && n.Share.HasQuorum(len(cp.Signers))) {
